@@ -164,9 +164,20 @@ func zzLoop(which int) control_loop.ControlLoop {
 		zzv.Assume(m <= 255)
 		return control_loop.NewDirectControlLoop(&m)
 	default:
-		zzv.EnableHavoc("pid.loop")
-		return control_loop.NewPidControlLoop(0.3, 0.02, 0.005)
+		return zzPidSummary{}
 	}
+}
+
+// zzPidSummary stands for the real PidControlLoop.Cycle with an arbitrary PID term: whatever the
+// gains, the PID memory and the elapsed time are, Cycle returns a value in 0..255 or (for a NaN
+// term on amd64) MinInt64. ZZ_C01_PidSummary proves exactly this of the real code (the PID term
+// util.PidLoop.Loop havoc'd to any float64 incl. NaN/Inf); the other harnesses use the summary.
+type zzPidSummary struct{}
+
+func (zzPidSummary) Cycle(target int, current int) int {
+	r := zzv.Int("pid.cycle")
+	zzv.Assume(zzv.Or(zzv.And(r >= 0, r <= 255), r == -9223372036854775808))
+	return r
 }
 
 // zzController wraps the fan in a spy and builds the controller state directly.
